@@ -432,10 +432,26 @@ Section StoreProofs.
       - inversion TS; subst b. destruct plain; [congruence|reflexivity].
       - pose proof (z_nonempty _ _ TS). destruct b; [congruence|]. now apply z_law. }
     assert (G : get_chunk st i s' = GetOk b).
-    { unfold LocalStore.get_chunk, read_file. rewrite P. unfold new_chunk_from_storage, storage_sum.
+    { unfold LocalStore.get_chunk, read_file. rewrite P. unfold new_chunk_from_storage.
       rewrite SD. destruct HI as [->| ->]; [|reflexivity]. rewrite N.eqb_refl. now destruct (st_skip st). }
     split; [exact G|]. split.
     - unfold LocalStore.get_data. now rewrite G.
     - unfold has_chunk. now rewrite P.
+  Qed.
+
+  (* a verifying store accepts an object only if its data can be produced and hashes to the id *)
+  Lemma new_chunk_ok_valid i b unc : new_chunk_from_storage H zdecomp i b unc false = GetOk b ->
+    exists d, storage_data zdecomp unc b = Some d /\ H d = i.
+  Proof.
+    unfold new_chunk_from_storage. destruct (storage_data zdecomp unc b) as [d|]; [|discriminate].
+    destruct (N.eqb (H d) i) eqn:E; [|discriminate]. intros _. exists d. split; [reflexivity|now apply N.eqb_eq].
+  Qed.
+
+  Lemma get_chunk_ok_valid st i s b : st_skip st = false -> get_chunk st i s = GetOk b ->
+    exists d, storage_data zdecomp (st_unc st) b = Some d /\ H d = i.
+  Proof.
+    intros K. unfold LocalStore.get_chunk. destruct (read_file _ s) as [c|]; [|discriminate]. rewrite K.
+    intros E. assert (c = b). { unfold new_chunk_from_storage in E. destruct (storage_data zdecomp (st_unc st) c); [|discriminate]. destruct (N.eqb (H b0) i); inversion E; reflexivity. }
+    subst c. now apply new_chunk_ok_valid.
   Qed.
 End StoreProofs.
